@@ -62,7 +62,7 @@ class Net(nn.Module):
             self.l2 = nn.Linear(I, O, bias=bias, dtype=F64)
         elif a == "bn":  # BatchNorm without affine parameters: couples samples (finding D3)
             self.l1 = nn.Linear(I, H, bias=bias, dtype=F64)
-            self.n = nn.BatchNorm1d(H, affine=False, track_running_stats=False, dtype=F64)
+            self.n = nn.BatchNorm1d(H, affine=spec.get("bn_affine", False), track_running_stats=spec.get("bn_trs", False), dtype=F64)
             self.l2 = nn.Linear(H, O, bias=bias, dtype=F64)
         else:
             raise ValueError(a)
